@@ -51,6 +51,9 @@ type Scenario struct {
 	Hist   []string `json:"hist"`
 	Result string   `json:"result"`
 	Sent   int      `json:"sent"`
+	// udpcut: an announce reply holding K whole peer entries followed by J stray bytes
+	K int `json:"k"`
+	J int `json:"j"`
 }
 
 type Viol struct {
@@ -260,10 +263,10 @@ func newHTTP() (*httpServer, error) {
 	go s.srv.Serve(ln)
 	return s, nil
 }
-func (s *httpServer) url() string             { return "http://" + s.ln.Addr().String() + "/announce" }
+func (s *httpServer) url() string              { return "http://" + s.ln.Addr().String() + "/announce" }
 func (s *httpServer) arrived() <-chan struct{} { return s.arr }
-func (s *httpServer) release(cls string)      { s.rel <- cls }
-func (s *httpServer) close()                  { close(s.done); s.srv.Close() }
+func (s *httpServer) release(cls string)       { s.rel <- cls }
+func (s *httpServer) close()                   { close(s.done); s.srv.Close() }
 
 type udpServer struct {
 	conn *net.UDPConn
@@ -357,10 +360,10 @@ func (s *udpServer) loop() {
 		}
 	}
 }
-func (s *udpServer) url() string             { return "udp://" + s.conn.LocalAddr().String() }
+func (s *udpServer) url() string              { return "udp://" + s.conn.LocalAddr().String() }
 func (s *udpServer) arrived() <-chan struct{} { return s.arr }
-func (s *udpServer) release(cls string)      { s.rel <- cls }
-func (s *udpServer) close()                  { close(s.done); s.conn.Close(); s.wg.Wait() }
+func (s *udpServer) release(cls string)       { s.rel <- cls }
+func (s *udpServer) close()                   { close(s.done); s.conn.Close(); s.wg.Wait() }
 
 // ---------------------------------------------------------------------------
 // lifecycle replay
@@ -538,6 +541,88 @@ func runLifecycle(sc *Scenario, out *Out) {
 	}
 }
 
+// runUDPCut: a well-formed connect exchange, then an announce reply whose peer
+// list is cut in the middle of an entry.  C15: an error, or exactly the peers
+// encoded in the reply - never an address the reply does not hold.
+func runUDPCut(sc *Scenario, out *Out) {
+	c, err := net.ListenUDP("udp4", &net.UDPAddr{IP: net.IPv4(127, 0, 0, 1)})
+	if err != nil {
+		out.Note = err.Error()
+		return
+	}
+	defer c.Close()
+	names := []string{"a", "b", "c"}[:sc.K]
+	go func() {
+		buf := make([]byte, 4096)
+		be := binary.BigEndian
+		for {
+			n, from, err := c.ReadFromUDP(buf)
+			if err != nil {
+				return
+			}
+			if n < 16 {
+				continue
+			}
+			action, tid := be.Uint32(buf[8:]), be.Uint32(buf[12:])
+			var rep []byte
+			if action == 0 {
+				rep = be.AppendUint32(rep, 0)
+				rep = be.AppendUint32(rep, tid)
+				rep = be.AppendUint64(rep, 0x1122334455667788)
+			} else {
+				rep = be.AppendUint32(rep, 1)
+				rep = be.AppendUint32(rep, tid)
+				rep = be.AppendUint32(rep, 1800)
+				rep = be.AppendUint32(rep, 7)
+				rep = be.AppendUint32(rep, 9)
+				rep = append(rep, compact4(names...)...)
+				// the stray bytes are the beginning of a further entry
+				rep = append(rep, []byte{203, 0, 113, 9, 200, 213}[:sc.J]...)
+			}
+			c.WriteToUDP(rep, from)
+		}
+	}()
+	tr := tracker.New("udp://" + c.LocalAddr().String())
+	var mu sync.Mutex
+	var got []string
+	ctx, cancel := context.WithTimeout(context.Background(), 20*time.Second)
+	defer cancel()
+	var aerr error
+	func() {
+		defer func() {
+			if p := recover(); p != nil {
+				out.Violations = append(out.Violations, Viol{"C15", "udp-reply-panic", fmt.Sprintf("the UDP announce panicked on a reply with %d entries and %d stray bytes: %v", sc.K, sc.J, p), 0})
+			}
+		}()
+		aerr = tr.Announce(ctx, make([]byte, 20), make([]byte, 20), 50, 1000, 6881, 6881, "",
+			func(a netip.AddrPort) bool {
+				mu.Lock()
+				got = append(got, a.String())
+				mu.Unlock()
+				return true
+			})
+	}()
+	mu.Lock()
+	defer mu.Unlock()
+	enc := map[string]bool{}
+	for _, n := range names {
+		enc[peerAddr[n].String()] = true
+	}
+	for _, g := range got {
+		if !enc[g] {
+			out.Violations = append(out.Violations, Viol{"C15", "peer-not-in-reply", fmt.Sprintf("the client learnt %s from a UDP reply that encodes %v followed by %d stray bytes (err %v)", g, names, sc.J, aerr), 0})
+			break
+		}
+	}
+	if aerr == nil && len(got) != sc.K {
+		out.Violations = append(out.Violations, Viol{"C15", "peers-differ", fmt.Sprintf("the announce succeeded but learnt %v; the reply encodes %v", got, names), 0})
+	}
+	if s := tracker.VerifState(tr); s.Locked {
+		out.Violations = append(out.Violations, Viol{"C15", "stuck-busy", "the tracker is left in the busy state after the announce returned", 0})
+	}
+	out.StepsDone = 1
+}
+
 // Handle is the worker-side entry point.
 func Handle(in []byte) any {
 	var sc Scenario
@@ -548,6 +633,8 @@ func Handle(in []byte) any {
 	switch sc.Kind {
 	case "udploop":
 		runLoop(&sc, out)
+	case "udpcut":
+		runUDPCut(&sc, out)
 	case "http", "udp":
 		runLifecycle(&sc, out)
 	default:
